@@ -15,11 +15,12 @@ import RV.Drive.Sensor
 import RV.Drive.Elements
 import RV.Drive.Propagate
 import RV.Drive.Forces
+import RV.Drive.Lambert
 namespace RV.Drive
 open RV
 
 def handlers : List (String → Option (P String)) :=
-  [RV.Drive.Decisions.handle, RV.Drive.Detectors.handle, RV.Drive.Mmae.handle, RV.Drive.Angles.handle, RV.Drive.Visibility.handle, RV.Drive.Frames.handle, RV.Drive.Time.handle, RV.Drive.Events.handle, RV.Drive.Importer.handle, RV.Drive.Ukf.handle, RV.Drive.Engine.handle, RV.Drive.Burn.handle, RV.Drive.Database.handle, RV.Drive.Sensor.handle, RV.Drive.Elements.handle, RV.Drive.Propagate.handle, RV.Drive.Forces.handle]
+  [RV.Drive.Decisions.handle, RV.Drive.Detectors.handle, RV.Drive.Mmae.handle, RV.Drive.Angles.handle, RV.Drive.Visibility.handle, RV.Drive.Frames.handle, RV.Drive.Time.handle, RV.Drive.Events.handle, RV.Drive.Importer.handle, RV.Drive.Ukf.handle, RV.Drive.Engine.handle, RV.Drive.Burn.handle, RV.Drive.Database.handle, RV.Drive.Sensor.handle, RV.Drive.Elements.handle, RV.Drive.Propagate.handle, RV.Drive.Forces.handle, RV.Drive.Lambert.handle]
 
 def step (line : String) : String :=
   match tokens line with
